@@ -213,11 +213,13 @@ pub mod chan {
     use std::mem::size_of;
 
     pub const QMAX: usize = 4;
-    static mut Q_PTR: [usize; QMAX] = [0; QMAX];
+    // typed raw pointers, never integers: an int-to-pointer cast makes CBMC consider every object
+    // of the program as a possible target of the dereference
+    static mut Q_PTR: [*mut u8; QMAX] = [std::ptr::null_mut(); QMAX];
     static mut Q_LEN: usize = 0;
     static mut Q_CAP: usize = 1;
     static mut U_LEN: usize = 0;
-    static mut P_PTR: [usize; QMAX] = [0; QMAX];
+    static mut P_PTR: [*mut u8; QMAX] = [std::ptr::null_mut(); QMAX];
     static mut P_LEN: usize = 0;
     static mut P_CAP: usize = 3;
 
@@ -251,14 +253,14 @@ pub mod chan {
                 if P_LEN >= P_CAP || P_LEN >= QMAX {
                     return Err(TrySendError::Full(msg));
                 }
-                P_PTR[P_LEN] = Box::into_raw(Box::new(msg)) as usize;
+                P_PTR[P_LEN] = Box::into_raw(Box::new(msg)) as *mut u8;
                 P_LEN += 1;
                 return Ok(());
             }
             if Q_LEN >= Q_CAP || Q_LEN >= QMAX {
                 return Err(TrySendError::Full(msg));
             }
-            Q_PTR[Q_LEN] = Box::into_raw(Box::new(msg)) as usize;
+            Q_PTR[Q_LEN] = Box::into_raw(Box::new(msg)) as *mut u8;
             Q_LEN += 1;
             Ok(())
         }
